@@ -184,5 +184,5 @@ def lookup_reviewed(table, key, guards=None):
         table["__norm__"] = idx
     cands = idx.get(_CLOS.sub("{closure}", key), [])
     if guards is not None:
-        cands = [c for c in cands if c.get("guards", []) == guards]
+        cands = [c for c in cands if set(c.get("guards", [])) <= set(guards)]
     return cands[0] if cands else None
